@@ -68,7 +68,18 @@ WellFormed(b, e) ==
 (* Must-reject classification for a message whose first question name starts  *)
 (* at offset 12: no reading of RFC 1035 accepts a name that loops, uses the    *)
 (* reserved label types, exceeds 255 octets or runs past the end of the input. *)
+(* Bounded work: the statement requires work bounded by a fixed multiple of   *)
+(* the input length "regardless of the compression pointers the input claims".*)
+(* A name has at most 127 labels, so no legitimate encoding needs more than   *)
+(* 127 pointer hops; a decoder that follows unboundedly long acyclic chains   *)
+(* does work proportional to (names x chain length).  The specification       *)
+(* therefore requires chains of more than MaxHops hops to be refused, with a  *)
+(* generous MaxHops (twice what any name needs; the library stops at 126).    *)
+MaxHops == 255
+
 NameVerdict(b, off) ==
   LET d == DecName(b, off) IN
-  IF d.ok THEN [v |-> "ok", name |-> d.name, hops |-> d.hops, why |-> "-"] ELSE [v |-> "reject", name |-> <<>>, hops |-> 0, why |-> d.why]
+  IF d.ok /\ d.hops > MaxHops THEN [v |-> "reject", name |-> <<>>, hops |-> d.hops, why |-> "hops"]
+  ELSE IF d.ok THEN [v |-> "ok", name |-> d.name, hops |-> d.hops, why |-> "-"]
+  ELSE [v |-> "reject", name |-> <<>>, hops |-> 0, why |-> d.why]
 =============================================================================
